@@ -254,7 +254,8 @@ theorem C07_writers {D : Type} (e : Gen.ReuseFacts.Entry) (he : e ∈ writerEntr
 /-! ### `strict` and `oj.Marshal(data, wr)`
 
 `strict` is no option: the caller cannot set it, `JSON`/`Write` never assign it, `oj.Marshal` on a
-caller's Writer sets it. Whether it is put back afterwards is read from the source. -/
+caller's Writer sets it. Whether it is put back afterwards is read from the source (it is, since
+9e87089). -/
 
 /-- the source restores `strict` in `Marshal`: some assignment there has a right-hand side other than `true` -/
 def strictRestored : Bool :=
@@ -284,11 +285,17 @@ theorem marshal_not_restoring : ¬ MarshalLeavesWriterAlone false := by
   revert this
   decide
 
-/-- what holds for the source as it is: decided by the generated fact -/
-theorem C07_marshal_strict :
-    (strictRestored = true → MarshalLeavesWriterAlone strictRestored) ∧
-    (strictRestored = false → ¬ MarshalLeavesWriterAlone strictRestored) :=
-  ⟨fun h => h ▸ marshal_restoring, fun h => h ▸ marshal_not_restoring⟩
+/-- the source as it is (fix 9e87089) puts the caller's `strict` back; the fact is re-evaluated over
+the regenerated `strictAssigns` on every run: on the source before the fix (the only assignment is
+`wr.strict = true`) this proof fails -/
+theorem strict_restored : strictRestored = true := by decide
+
+/-- **`oj.Marshal(data, wr)` leaves the caller's Writer as it found it** (repaired code) -/
+theorem C07_marshal_strict : MarshalLeavesWriterAlone strictRestored :=
+  strict_restored ▸ marshal_restoring
+
+/-- the code before 9e87089 (known finding C07-marshal-strict, now fixed): false, same witness -/
+theorem C07_marshal_strict_before : ¬ MarshalLeavesWriterAlone false := marshal_not_restoring
 
 /-! ### pretty.Writer: `Encode`/`Marshal` after `Write` -/
 
@@ -315,14 +322,21 @@ theorem pretty_not_clearing : ¬ PrettyEncodeLikeFresh false := by
   revert this
   decide
 
-theorem C07_pretty_sink :
-    (prettyClearsSink = true → PrettyEncodeLikeFresh prettyClearsSink) ∧
-    (prettyClearsSink = false → ¬ PrettyEncodeLikeFresh prettyClearsSink) :=
-  ⟨fun h => h ▸ pretty_clearing, fun h => h ▸ pretty_not_clearing⟩
+/-- the source as it is (fix f01b3fb): `w` is assigned before `build`/`fill` at every site of
+`Encode` and `Marshal`; fails on the source before the fix -/
+theorem pretty_clears_sink : prettyClearsSink = true := by decide
+
+/-- **`Encode`/`Marshal` on a used pretty.Writer answer like a fresh one** (repaired code) -/
+theorem C07_pretty_sink : PrettyEncodeLikeFresh prettyClearsSink :=
+  pretty_clears_sink ▸ pretty_clearing
+
+/-- the code before f01b3fb (known finding C07-pretty-sink, now fixed) -/
+theorem C07_pretty_sink_before : ¬ PrettyEncodeLikeFresh false := pretty_not_clearing
 
 /-! ### The struct-info cache: the plan used for a nested struct field
 
-Independent of earlier calls iff `getTypeStruct` selects the map by the `omitEmpty` flag. -/
+Independent of earlier calls iff `getTypeStruct` selects the map by the `omitEmpty` flag — which
+it does since 8169704. -/
 
 theorem Cache.lookup_wf_plain {c : Cache} (h : c.wf) (t : Nat) (p : Bool)
     (hl : Cache.lookup c.plain t = some p) : p = false := by
@@ -373,16 +387,24 @@ def cacheSelectsByFlag : Bool :=
 def NestedPlanIndependent (sel : Bool) : Prop :=
   ∀ c1 c2 : Cache, c1.wf → c2.wf → ∀ t om, (getTypeStruct sel c1 t om).1 = (getTypeStruct sel c2 t om).1
 
-theorem C07_struct_cache :
-    (cacheSelectsByFlag = true → NestedPlanIndependent cacheSelectsByFlag) ∧
-    (cacheSelectsByFlag = false → ¬ NestedPlanIndependent cacheSelectsByFlag) := by
-  constructor
-  · intro h; rw [h]
-    intro c1 c2 h1 h2 t om
-    rw [typeStruct_by_flag c1 h1, typeStruct_by_flag c2 h2]
-  · intro h; rw [h]
-    intro hn
-    obtain ⟨c1, c2, h1, h2, hne⟩ := typeStruct_plain_only
-    exact hne (hn c1 c2 h1 h2 7 true)
+/-- the source as it is (fix 8169704): `getTypeStruct` of oj and of sen mentions `structEmptyMap`
+(generated `typeStructEmpty = "yes"`); on the source before the fix the fact is `"no"` and this
+proof fails -/
+theorem cache_selects_by_flag : cacheSelectsByFlag = true := by decide
+
+/-- **The plan used for a nested struct field does not depend on what earlier calls cached**
+(repaired code): with goroutines, it does not depend on who was first either — the part of C08's
+"what it returns when run alone" that the caches touch. -/
+theorem C07_struct_cache : NestedPlanIndependent cacheSelectsByFlag := by
+  rw [cache_selects_by_flag]
+  intro c1 c2 h1 h2 t om
+  rw [typeStruct_by_flag c1 h1, typeStruct_by_flag c2 h2]
+
+/-- the code before 8169704 (known finding C07-struct-cache-omitempty, now fixed): looking in
+`structMap` only, the plan depends on the cache -/
+theorem C07_struct_cache_before : ¬ NestedPlanIndependent false := by
+  intro hn
+  obtain ⟨c1, c2, h1, h2, hne⟩ := typeStruct_plain_only
+  exact hne (hn c1 c2 h1 h2 7 true)
 
 end OjgVerif.C07
